@@ -120,6 +120,53 @@ fn main() {
                 }
             }
         }
+        "failed_compile" => {
+            // C17 witness corpus: a valid project is compiled, then one invalid edit at a time
+            // is made (syntax error, undefined field, duplicate definition, wrong argument,
+            // unknown type). Each recompile must report an error AND leave the artifact
+            // directory byte-for-byte untouched.  exit 1 = a failed compile touched it.
+            // every edit also adds a new VALID field (Baz), so that applying ANY plan for the
+            // edited program necessarily changes the directory
+            const BAZ: &str = "export const Baz = iso(`\n  field Query.Baz @component {\n    world\n  }\n`)(() => null);\n";
+            let invalid: [(&str, String); 5] = [
+                ("syntax error", format!("{FOO}{BAZ}export const X = iso(`field Query.Bar @component {{ world `)(() => null);\n")),
+                ("undefined field", format!("{FOO}{BAZ}export const X = iso(`\n  field Query.Bar @component {{\n    nope\n  }}\n`)(() => null);\n")),
+                ("duplicate definition", format!("{FOO}{BAZ}export const X = iso(`\n  field Query.Foo @component {{\n    world\n  }}\n`)(() => null);\n")),
+                ("unknown argument", format!("{FOO}{BAZ}export const X = iso(`\n  field Query.Bar @component {{\n    hello(x: 1)\n  }}\n`)(() => null);\n")),
+                ("unknown parent type", format!("{FOO}{BAZ}export const X = iso(`\n  field Nope.Bar @component {{\n    hello\n  }}\n`)(() => null);\n")),
+            ];
+            let snapshot = |r: &Path| {
+                let mut v = vec![];
+                list_files(&r.join("src/__isograph"), &mut v);
+                let mut out: Vec<(String, String)> = v.iter().map(|p| (p.display().to_string(), fs::read_to_string(p).unwrap_or_default())).collect();
+                out.sort();
+                out
+            };
+            let mut bad = false;
+            for (what, text) in invalid.iter() {
+                setup(&root, FOO);
+                let config = create_config(&root.join("isograph.config.json"), cwd);
+                let mut state = CompilerState::<P>::new(config, cwd).map_err(|e| e.0).expect("state");
+                compile::<P>(&mut state).map_err(|e| format!("{e:?}")).expect("valid project compiles");
+                let before = snapshot(&root);
+                let rel: common_lang_types::RelativePathToSourceFile = "src/a.ts".intern().into();
+                state.db.insert_iso_literal(rel, text.clone());
+                let r = compile::<P>(&mut state);
+                let after = snapshot(&root);
+                match r {
+                    Ok(_) => println!("{what}: compiled without error (not an invalid program for this compiler; skipped)"),
+                    Err(e) => {
+                        if before != after {
+                            println!("TOUCHED: {what}: compile reported {} error diagnostic(s) but changed the artifact directory", e.len());
+                            bad = true;
+                        } else {
+                            println!("{what}: error reported, artifact directory untouched");
+                        }
+                    }
+                }
+            }
+            if bad { std::process::exit(1); }
+        }
         "parse" => {
             // compile_fs parse <dir> <file with one iso literal text>: exit 1 iff the REAL
             // isograph_lang_parser::parse_iso_literal panics (C07: parsing is total)
